@@ -16,20 +16,38 @@
 (*    recorded outcome, so the behaviour is a line and every state of it is  *)
 (*    a crash point ("killed before / after the call").                      *)
 (*                                                                           *)
-(* Paths are roles: "target" (the file given to xgo fmt), "moved" (target    *)
+(* Paths are roles: "target" (the PATH given to xgo fmt), "moved" (target    *)
 (* with .go replaced by .xgo: --mvgo), "tmp" (any other name in the target's *)
-(* directory), "tmpx" (a name in another directory: $TMPDIR).                *)
+(* directory), "tmpx" (a name in another directory: $TMPDIR), "real" (the    *)
+(* regular file a symbolic link at "target" points to).                      *)
+(* Modes are numbers (0644 octal = 420); open/creat apply mode & ~Umask,     *)
+(* chmod/fchmod do not.                                                      *)
+(* The property speaks about the PATH: when "target" is a symbolic link the  *)
+(* content and mode seen THROUGH the path must be complete-old-or-complete-  *)
+(* new at every crash point.  Replacing the link by a regular file (rename   *)
+(* over it) satisfies the statement; writing through the link in place does  *)
+(* not.                                                                      *)
 (* Content is abstract: "orig" (complete original), "new" (complete          *)
 (* formatted), "partial" (anything else, including empty).                   *)
 EXTENDS Naturals, Sequences, FiniteSets, TLC, VerifIO
 
-CONSTANTS Progs,       \* function (e.g. a sequence) of programs [name, mv, xdev, origMode, newLen, steps]
+CONSTANTS Progs,       \* function (e.g. a sequence) of programs [name, mv, xdev, link, origMode, newLen, steps]
           MaxFaults,   \* injected failures per run explored for res = "any"
-          ModeSet,     \* permission bits of the scenarios, e.g. {"0644", "0600", "0755"}
+          Umask,       \* file-mode creation mask of the process (18 = 022 octal)
+          ModeSet,     \* permission bits of the scenarios, e.g. {420, 384, 493} = 0644 0600 0755
           FormSet      \* how the path reaches xgo fmt: "file-nodir" "file-dir" "walk-dot" "walk-dir"
 
-Paths    == {"target", "moved", "tmp", "tmpx"}
-Absent   == [c |-> "absent", m |-> "-"]
+Paths    == {"target", "moved", "tmp", "tmpx", "real"}
+NoMode   == 4096
+Absent   == [c |-> "absent", m |-> NoMode, ln |-> ""]
+Reg(c, m) == [c |-> c, m |-> m, ln |-> ""]
+Link(to)  == [c |-> "link", m |-> 511, ln |-> to]
+
+\* m & ~u on 12 permission bits
+RECURSIVE AndNotBits(_, _, _)
+AndNotBits(m, u, i) == IF i > 11 THEN 0
+                       ELSE (IF (m \div (2^i)) % 2 = 1 /\ (u \div (2^i)) % 2 = 0 THEN 2^i ELSE 0) + AndNotBits(m, u, i + 1)
+AndNot(m, u) == AndNotBits(m, u, 0)
 OKEXIT   == 1000        \* pc value: process exits with status 0
 FAILEXIT == 1001        \* pc value: process reports an error and exits with status # 0
 Ops      == {"CreateExcl", "Open", "Write", "Close", "Chmod", "Unlink", "Rename", "Sync"}
@@ -50,7 +68,12 @@ Alive == status = "run" /\ pc \in 1..Len(P.steps)
 
 Init == /\ run \in DOMAIN Progs
         /\ pc = 1
-        /\ fs = [p \in Paths |-> IF p = "target" THEN [c |-> "orig", m |-> Progs[run].origMode] ELSE Absent]
+        /\ fs = [p \in Paths |->
+                   IF Progs[run].link = "none"
+                   THEN (IF p = "target" THEN Reg("orig", Progs[run].origMode) ELSE Absent)
+                   ELSE (IF p = "target" THEN Link("real")                     \* the path is a symbolic link ...
+                         ELSE IF p = "real" THEN Reg("orig", Progs[run].origMode)   \* ... to the source file
+                         ELSE Absent)]
         /\ open = << >>
         /\ status = "run" /\ faults = 0 /\ nsteps = 0
         /\ last = [sys |-> "start", res |-> "ok"]
@@ -58,20 +81,25 @@ Init == /\ run \in DOMAIN Progs
 -----------------------------------------------------------------------------
 \* One operator per system call: precondition of success and effect on (fs, open).
 
-PathOf(st) == IF st.h # 0 /\ st.h \in DOMAIN open THEN open[st.h].p ELSE st.p
 Present(p) == p \in Paths /\ fs[p] # Absent
+\* path resolution of open(2) / chmod(2) / stat(2): a symbolic link is followed (one level)
+Res(p)     == IF p \in Paths /\ fs[p].ln # "" THEN fs[p].ln ELSE p
+PathOf(st) == IF st.h # 0 /\ st.h \in DOMAIN open THEN open[st.h].p ELSE Res(st.p)
 
-\* openat(O_CREAT|O_EXCL): os.CreateTemp
+\* openat(O_CREAT|O_EXCL): os.CreateTemp / os.OpenFile(O_EXCL); fails on an existing name, link or not;
+\* the new file gets mode & ~umask
 PreCreateExcl(st) == ~Present(st.p) /\ st.h \notin DOMAIN open
-EffCreateExcl(st) == /\ fs' = [fs EXCEPT ![st.p] = [c |-> "partial", m |-> st.mode]]
+EffCreateExcl(st) == /\ fs' = [fs EXCEPT ![st.p] = Reg("partial", AndNot(st.mode, Umask))]
                      /\ open' = open @@ (st.h :> [p |-> st.p, off |-> 0, good |-> TRUE])
 
 \* openat(O_WRONLY|O_CREAT|O_TRUNC) (os.WriteFile) or without O_TRUNC; mode only used when created
-PreOpen(st) == st.h \notin DOMAIN open /\ (st.creat \/ Present(st.p))
+\* the path is resolved: opening a symbolic link opens (truncates) the file it points to
+PreOpen(st) == st.h \notin DOMAIN open /\ (st.creat \/ Present(Res(st.p)))
 EffOpen(st) ==
-  /\ fs' = IF ~Present(st.p) THEN [fs EXCEPT ![st.p] = [c |-> "partial", m |-> st.mode]]
-           ELSE IF st.trunc THEN [fs EXCEPT ![st.p].c = "partial"] ELSE fs
-  /\ open' = open @@ (st.h :> [p |-> st.p, off |-> 0, good |-> (st.trunc \/ ~Present(st.p))])
+  LET q == Res(st.p) IN
+  /\ fs' = IF ~Present(q) THEN [fs EXCEPT ![q] = Reg("partial", AndNot(st.mode, Umask))]
+           ELSE IF st.trunc THEN [fs EXCEPT ![q].c = "partial"] ELSE fs
+  /\ open' = open @@ (st.h :> [p |-> q, off |-> 0, good |-> (st.trunc \/ ~Present(q))])
 
 \* write(fd, chunk): n bytes; st.match = the bytes are the right slice of the formatted text
 PreWrite(st) == st.h \in DOMAIN open
@@ -87,17 +115,18 @@ PreClose(st) == st.h \in DOMAIN open
 EffClose(st) == /\ open' = [x \in DOMAIN open \ {st.h} |-> open[x]]
                 /\ fs' = fs
 
-\* fchmod(fd) / fchmodat(path)
+\* fchmod(fd) / fchmodat(path): the mode is set as given (no umask); a path is resolved
 PreChmod(st) == PathOf(st) \in Paths /\ Present(PathOf(st))
 EffChmod(st) == /\ fs' = [fs EXCEPT ![PathOf(st)].m = st.mode]
                 /\ open' = open
 
-\* unlinkat(path): handles on it keep the inode but it is no longer reachable
+\* unlinkat(path): removes the name itself (a link, not what it points to); handles on it keep the
+\* inode but it is no longer reachable
 PreUnlink(st) == Present(st.p)
 EffUnlink(st) == /\ fs' = [fs EXCEPT ![st.p] = Absent]
                  /\ open' = [x \in DOMAIN open |-> IF open[x].p = st.p THEN [open[x] EXCEPT !.p = "gone"] ELSE open[x]]
 
-\* renameat(p, q): atomic replacement of q; EXDEV when the two names are on different devices
+\* renameat(p, q): atomic replacement of the NAME q (a symbolic link at q is replaced, not followed); EXDEV when the two names are on different devices
 \* (P.xdev: $TMPDIR, i.e. the role "tmpx", is on another file system than the target's directory)
 PreRename(st) == /\ Present(st.p) /\ st.q \in Paths
                  /\ ~(P.xdev /\ ((st.p = "tmpx") # (st.q = "tmpx")))
@@ -165,21 +194,24 @@ Spec == Init /\ [][Next]_vars /\ WF_vars(StepOk \/ StepErr \/ Exit)
 \* At every state (hence at every crash point) the target holds the complete original or the
 \* complete formatted text.  With --mvgo the file is moved on purpose: the logical file is the
 \* original under the old name or the formatted text under the new one.
-TargetState == IF fs["target"] = Absent THEN "absent" ELSE fs["target"].c
-Durable == \/ fs["target"].c \in {"orig", "new"}
+\* what is seen THROUGH the path (a dangling link shows nothing)
+Seen(p)     == fs[Res(p)]
+TargetState == IF Seen("target") = Absent THEN "absent" ELSE Seen("target").c
+Durable == \/ Seen("target").c \in {"orig", "new"}
            \/ P.mv /\ fs["target"] = Absent /\ fs["moved"].c = "new"
 \* after a successful run the file has its original permission bits
 FinalPath == IF P.mv THEN "moved" ELSE "target"
-ModeKept  == (status = "done" /\ ~P.mv) => fs["target"].m = P.origMode
+ModeKept  == (status = "done" /\ ~P.mv) => Seen("target").m = P.origMode
 \* --mvgo creates the new file with 0666 & ~umask: not judged by C26 (the file is moved on purpose), reported as drift
 MvModeKept == (status = "done" /\ P.mv) => fs["moved"].m = P.origMode
 \* a successful run really formatted the file and left no temporary file behind (not part of C26)
-Formatted == status = "done" => fs[FinalPath].c = "new"
+Formatted == status = "done" => Seen(FinalPath).c = "new"
 NoLitter  == status \in {"done", "failed"} => fs["tmp"] = Absent /\ fs["tmpx"] = Absent
 
 TypeOK == /\ run \in DOMAIN Progs
           /\ pc \in (1..Len(P.steps)) \cup {OKEXIT, FAILEXIT}
-          /\ \A p \in Paths : fs[p] = Absent \/ fs[p].c \in {"orig", "new", "partial"}
+          /\ \A p \in Paths : fs[p] = Absent \/ fs[p].c \in {"orig", "new", "partial", "link"}
+          /\ \A p \in Paths : fs[p].m \in 0..NoMode
           /\ status \in {"run", "done", "failed", "crashed"}
           /\ faults \in 0..MaxFaults
           /\ \A h \in DOMAIN open : open[h].p \in Paths \cup {"gone"}
@@ -201,12 +233,12 @@ CurrentSteps(tmp, c) ==
   LET k  == c                               \* number of write calls
       cl == k + 2                           \* index of the Close on the success path
       ec == k + 5                           \* index of the Close on the write-error path
-  IN  << Step("openat", "CreateExcl", tmp, "", 1, "0600", 0, "any", 2, FAILEXIT) >>
-      \o [i \in 1..k |-> Step("write", "Write", "", "", 1, "", Chunks(c)[i], "any", i + 2, ec)]
-      \o << Step("close",    "Close",  "", "", 1, "", 0, "any", cl + 1, cl + 1),      \* error ignored
-            Step("unlinkat", "Unlink", "target", "", 0, "", 0, "any", cl + 2, FAILEXIT),
-            Step("renameat", "Rename", tmp, "target", 0, "", 0, "any", OKEXIT, FAILEXIT),
-            Step("close",    "Close",  "", "", 1, "", 0, "any", FAILEXIT, FAILEXIT) >>
+  IN  << Step("openat", "CreateExcl", tmp, "", 1, 384, 0, "any", 2, FAILEXIT) >>
+      \o [i \in 1..k |-> Step("write", "Write", "", "", 1, 0, Chunks(c)[i], "any", i + 2, ec)]
+      \o << Step("close",    "Close",  "", "", 1, 0, 0, "any", cl + 1, cl + 1),      \* error ignored
+            Step("unlinkat", "Unlink", "target", 0, 0, 0, 0, "any", cl + 2, FAILEXIT),
+            Step("renameat", "Rename", tmp, "target", 0, 0, 0, "any", OKEXIT, FAILEXIT),
+            Step("close",    "Close",  "", "", 1, 0, 0, "any", FAILEXIT, FAILEXIT) >>
 
 \* the proposed fix (fixes/C26-atomic-rename.diff): temp file in the target's directory, chmod to the
 \* original mode, rename over the target without unlink; on any error the temp file is removed.
@@ -214,39 +246,54 @@ FixedSteps(mode, c) ==
   LET k  == c
       rm == k + 5                           \* cleanup: os.Remove(tmpfile)
       ec == k + 6                           \* Close on the error path, then cleanup
-  IN  << Step("openat", "CreateExcl", "tmp", "", 1, "0600", 0, "any", 2, FAILEXIT) >>
-      \o [i \in 1..k |-> Step("write", "Write", "", "", 1, "", Chunks(c)[i], "any", i + 2, ec)]
+  IN  << Step("openat", "CreateExcl", "tmp", "", 1, 384, 0, "any", 2, FAILEXIT) >>
+      \o [i \in 1..k |-> Step("write", "Write", "", "", 1, 0, Chunks(c)[i], "any", i + 2, ec)]
       \o << Step("fchmod",   "Chmod",  "", "", 1, mode, 0, "any", k + 3, ec),
-            Step("close",    "Close",  "", "", 1, "", 0, "any", k + 4, rm),
-            Step("renameat", "Rename", "tmp", "target", 0, "", 0, "any", OKEXIT, rm),
-            Step("unlinkat", "Unlink", "tmp", "", 0, "", 0, "any", FAILEXIT, FAILEXIT),
-            Step("close",    "Close",  "", "", 1, "", 0, "any", rm, rm) >>
+            Step("close",    "Close",  "", "", 1, 0, 0, "any", k + 4, rm),
+            Step("renameat", "Rename", "tmp", "target", 0, 0, 0, "any", OKEXIT, rm),
+            Step("unlinkat", "Unlink", "tmp", 0, 0, 0, 0, "any", FAILEXIT, FAILEXIT),
+            Step("close",    "Close",  "", "", 1, 0, 0, "any", rm, rm) >>
 
-\* --mvgo:  os.WriteFile(newPath, target, 0666); os.Remove(path)   (umask 022)
+\* --mvgo:  os.WriteFile(newPath, target, 0666); os.Remove(path)   (0666 = 438; the umask is applied by Open)
 MvGoSteps(c) ==
   LET k == c
-  IN  << Step("openat", "Open", "moved", "", 1, "0644", 0, "any", 2, FAILEXIT) >>
-      \o [i \in 1..k |-> Step("write", "Write", "", "", 1, "", Chunks(c)[i], "any", i + 2, k + 4)]
-      \o << Step("close",    "Close",  "", "", 1, "", 0, "any", k + 3, FAILEXIT),
-            Step("unlinkat", "Unlink", "target", "", 0, "", 0, "any", OKEXIT, FAILEXIT),
-            Step("close",    "Close",  "", "", 1, "", 0, "any", FAILEXIT, FAILEXIT) >>
+  IN  << Step("openat", "Open", "moved", "", 1, 438, 0, "any", 2, FAILEXIT) >>
+      \o [i \in 1..k |-> Step("write", "Write", "", "", 1, 0, Chunks(c)[i], "any", i + 2, k + 4)]
+      \o << Step("close",    "Close",  "", "", 1, 0, 0, "any", k + 3, FAILEXIT),
+            Step("unlinkat", "Unlink", "target", 0, 0, 0, 0, "any", OKEXIT, FAILEXIT),
+            Step("close",    "Close",  "", "", 1, 0, 0, "any", FAILEXIT, FAILEXIT) >>
 
 \* The scenarios: which real runs the harness performs (file kind x mode x how the path is given x
 \* flags), and the program the model expects for each.  filepath.Split gives dir = "" for a path
 \* without directory component (also for every file found by `xgo fmt .`): temp file in $TMPDIR.
-Scenarios == { sc \in [ext : {"xgo", "gox", "go"}, mode : ModeSet, form : FormSet,
-                       flags : {"plain", "smart", "smart-mvgo"}, xdev : BOOLEAN, c : 1..3] :
-                 /\ sc.flags = "smart-mvgo" => sc.ext = "go"    \* fmt.go walk: mvgo only touches .go files
-                 /\ sc.xdev => (sc.form = "file-nodir" /\ sc.ext = "xgo" /\ sc.flags = "plain") }
+ExtSeq   == <<"xgo", "gox", "go">>
+FormSeq  == <<"file-nodir", "file-dir", "walk-dot", "walk-dir">>
+FlagSeq  == <<"plain", "smart", "smart-mvgo">>
+IndexOf(seq, x) == CHOOSE i \in 1..Len(seq) : seq[i] = x
+\* modes with group/other WRITE bits (0664 0666 0775 0660): a mode handed to open(2) instead of fchmod
+\* loses them under umask 022.  They are rotated over the (kind, form, flags) combinations instead of
+\* multiplying the scenario set.
+WModeSeq == <<436, 438, 509, 432>>
+RotMode(sc) == WModeSeq[((IndexOf(ExtSeq, sc.ext) + IndexOf(FormSeq, sc.form) + IndexOf(FlagSeq, sc.flags)) % 4) + 1]
+ScenRec(modes, forms) == [ext : {"xgo", "gox", "go"}, mode : modes, form : forms,
+                          flags : {"plain", "smart", "smart-mvgo"}, xdev : BOOLEAN,
+                          link : {"none", "abs", "rel"}, c : 1..3]
+Scenarios ==
+  { sc \in ScenRec(ModeSet \cup {436, 438, 509, 432}, FormSet \cup {"file-dir", "walk-dir"}) :
+      /\ sc.flags = "smart-mvgo" => sc.ext = "go"    \* fmt.go walk: mvgo only touches .go files
+      /\ sc.xdev => (sc.form = "file-nodir" /\ sc.ext = "xgo" /\ sc.flags = "plain" /\ sc.mode \in ModeSet /\ sc.link = "none")
+      \* the path is a symbolic link (absolute / relative) to the source file, given directly or found by the walk
+      /\ sc.link # "none" => (sc.ext = "xgo" /\ sc.flags = "plain" /\ sc.mode = 420 /\ sc.form \in {"file-dir", "walk-dir"})
+      /\ sc.link = "none" => (sc.form \in FormSet /\ (sc.mode \in ModeSet \/ sc.mode = RotMode(sc))) }
 TmpOf(sc) == IF sc.form \in {"file-nodir", "walk-dot"} THEN "tmpx" ELSE "tmp"
 ProgOf(sc, design) ==
   IF sc.flags = "smart-mvgo"
-  THEN [name |-> "mvgo", mv |-> TRUE, xdev |-> sc.xdev, origMode |-> sc.mode, newLen |-> 3, tmp |-> "-", sc |-> sc,
+  THEN [name |-> "mvgo", mv |-> TRUE, xdev |-> sc.xdev, link |-> sc.link, origMode |-> sc.mode, newLen |-> 3, tmp |-> "-", sc |-> sc,
         steps |-> MvGoSteps(sc.c)]
   ELSE IF design = "current"
-  THEN [name |-> "current", mv |-> FALSE, xdev |-> sc.xdev, origMode |-> sc.mode, newLen |-> 3, tmp |-> TmpOf(sc), sc |-> sc,
+  THEN [name |-> "current", mv |-> FALSE, xdev |-> sc.xdev, link |-> sc.link, origMode |-> sc.mode, newLen |-> 3, tmp |-> TmpOf(sc), sc |-> sc,
         steps |-> CurrentSteps(TmpOf(sc), sc.c)]
-  ELSE [name |-> "fixed", mv |-> FALSE, xdev |-> sc.xdev, origMode |-> sc.mode, newLen |-> 3, tmp |-> "tmp", sc |-> sc,
+  ELSE [name |-> "fixed", mv |-> FALSE, xdev |-> sc.xdev, link |-> sc.link, origMode |-> sc.mode, newLen |-> 3, tmp |-> "tmp", sc |-> sc,
         steps |-> FixedSteps(sc.mode, sc.c)]
 CurrentProgs == [sc \in Scenarios |-> ProgOf(sc, "current")]
 FixedProgs   == [sc \in Scenarios |-> ProgOf(sc, "fixed")]
@@ -256,7 +303,7 @@ FixedProgs   == [sc \in Scenarios |-> ProgOf(sc, "fixed")]
 ExportScenario ==
   (status = "run" /\ nsteps = 0 /\ P.sc.c = 1) =>
     Emit([kind |-> "scenario", ext |-> P.sc.ext, mode |-> P.sc.mode, form |-> P.sc.form, flags |-> P.sc.flags,
-          xdev |-> P.sc.xdev])
+          xdev |-> P.sc.xdev, link |-> P.sc.link])
 \* ... and one per crash point / final state of the design: the leads (durable = FALSE or
 \* modeKept = FALSE) are what the harness must find (or not find) in the real binary.
 ExportDesign ==
@@ -264,6 +311,6 @@ ExportDesign ==
     Emit([kind |-> "design", prog |-> P.name, tmp |-> P.tmp, origMode |-> P.origMode, xdev |-> P.xdev,
           status |-> status, k |-> nsteps, faults |-> faults,
           after |-> last, before |-> IF status = "crashed" /\ pc \in 1..Len(P.steps) THEN St.sys ELSE "exit",
-          target |-> TargetState, mode |-> fs[FinalPath].m,
+          target |-> TargetState, mode |-> Seen(FinalPath).m, link |-> P.link,
           durable |-> Durable, modeKept |-> ModeKept])
 =============================================================================
